@@ -2,7 +2,7 @@
    to the same object".  About Model/DynReg.v:config_header (ImportManager.add_import / require_configurable /
    minimal_selector under dynamic registration). *)
 From Coq Require Import List String Ascii ZArith Bool Arith Lia Permutation.
-From GinV Require Import Lib.Out Lib.PyStr Model.SelectorMap Model.Serial Model.DynReg Proofs.SerialProofs Proofs.SerialProofs2 Proofs.DynRegProofs Proofs.DynRegSkip.
+From GinV Require Import Lib.Out Lib.PyStr Model.SelectorMap Model.Serial Model.DynReg Proofs.SerialProofs Proofs.SerialProofs2 Proofs.SerialProofs3 Proofs.DynRegProofs Proofs.DynRegSkip.
 Import ListNotations.
 Open Scope string_scope.
 Open Scope list_scope.
@@ -457,7 +457,7 @@ Qed.
 Lemma import_key_le_feature : forall x y, key_le (fun x : simport => x) import_key_ltb x y ->
   SerialProofs2.is_feature x = false -> SerialProofs2.is_feature y = false.
 Proof.
-  intros x y H Hx. unfold key_le, import_key_ltb, SerialProofs2.is_feature in *. rewrite Hx in H.
+  intros x y H Hx. unfold key_le, import_key_ltb, import_key_ltb_noalias, SerialProofs2.is_feature in *. rewrite Hx in H.
   destruct (is_feature_module (i_module y)); [cbn in H; discriminate H|reflexivity].
 Qed.
 Lemma recorded_feature_first : forall l, exists l1 l2, sort_stable (fun x : simport => x) import_key_ltb l = l1 ++ l2 /\
@@ -1206,6 +1206,40 @@ Module Findings.
   Proof. split; [vm_compute; reflexivity|]. eexists. repeat split; vm_compute; reflexivity. Qed.
 End Findings.
 
+(* ------------------------------------------------------------------ *)
+(* ---- F37: the header does not depend on the order of the recorded imports (_IMPORTS is a set) ---- *)
+(* ------------------------------------------------------------------ *)
+Lemma existsb_perm : forall A (p : A -> bool) l1 l2, Permutation l1 l2 -> existsb p l1 = existsb p l2.
+Proof.
+  intros A p l1 l2 Hp. induction Hp as [|x l l' _ IH|x y l|l l' l'' _ IH1 _ IH2]; cbn [existsb].
+  - reflexivity.
+  - rewrite IH. reflexivity.
+  - destruct (p x), (p y); reflexivity.
+  - rewrite IH1. exact IH2.
+Qed.
+
+(* config_header reads ds_imports in two places only: the sorted list of recorded statements and the test for the
+   enabling statement; both are invariant under permutation (the former by the F37 repair of the sort key) *)
+Theorem config_header_import_order_independent : forall s1 s2 refs,
+  ds_reg s1 = ds_reg s2 -> ds_store s1 = ds_store s2 ->
+  Permutation (ds_imports s1) (ds_imports s2) ->
+  Forall (fun d => d_alias d <> Some "") (ds_imports s1) ->
+  config_header s1 refs = config_header s2 refs.
+Proof.
+  intros [reg1 store1 imps1 seen1] [reg2 store2 imps2 seen2] refs Hreg Hstore Hp Hal.
+  cbn [ds_reg ds_store ds_imports] in *. subst reg2 store2.
+  assert (Hrec : sort_stable (fun x : simport => x) import_key_ltb (map to_simport imps1) =
+                 sort_stable (fun x : simport => x) import_key_ltb (map to_simport imps2)).
+  { apply import_manager_sort_order_independent; [apply Permutation_map, Hp|].
+    rewrite Forall_forall in Hal |- *. intros i Hi. apply in_map_iff in Hi. destruct Hi as [d [<- Hd]].
+    exact (Hal d Hd). }
+  assert (Hdyn : existsb (fun d => String.eqb (d_module d) "__gin__.dynamic_registration") imps1 =
+                 existsb (fun d => String.eqb (d_module d) "__gin__.dynamic_registration") imps2)
+    by (apply existsb_perm, Hp).
+  unfold config_header. cbn [ds_reg ds_store ds_imports]. rewrite Hrec, Hdyn. reflexivity.
+Qed.
+
+Print Assumptions config_header_import_order_independent.
 Print Assumptions config_header_dynamic.
 Print Assumptions config_header_imports.
 Print Assumptions C19_header_bound_names_unique.
